@@ -237,11 +237,12 @@ CHECKS["C13"] = dict(
 )
 CHECKS["C14"] = dict(
     title="hash sets are linearizable incl. growth",
-    units=_units("harness/sets_hash.cpp", [1, 2, 3, 4]),
+    units=_units("harness/sets_hash.cpp", [1, 2, 3, 4, 5]),
     rule=SET_RULE,
     explanation="MichaelHashSet (2 buckets, colliding hash; Michael/Lazy/Iterable lists; HP, DHP, RCU), SplitListSet (dynamic and static bucket tables of at most 8 buckets, load factor 1, so the 3rd and 5th "
                 "insert double the table and later operations initialise buckets recursively; Michael/Lazy/Iterable lists; HP, DHP, RCU), FeldmanHashSet (head/array bits 4/2, hashes sharing 4, 6 and 8 low bits "
-                "so inserts expand slots into array nodes; HP, DHP, RCU)." + SET_EXPL_TAIL,
+                "so inserts expand slots into array nodes; HP, DHP, RCU); unit hash5: the intrusive MichaelHashSet, SplitListSet (HP) and FeldmanHashSet (HP, RCU) with unlink(item), items owned by the harness "
+                "(disposer contract: inserted items disposed exactly once, refused items never, no access to an item after its disposer ran)." + SET_EXPL_TAIL,
     design_ref="DESIGN.md 9/C14",
     level_text="Exhaustive within bounds on the real hash sets incl. programs that race with table growth, bucket initialisation and slot expansion.",
 )
